@@ -522,6 +522,12 @@ func runLOCK(c *Ctx) {
 			if len(mf) == 0 {
 				continue
 			}
+			if pp == ir.MastPath && !implementsStorageIface(P, named) {
+				// the tree package's own concurrency helpers (flush's worker machinery) follow the
+				// WaitGroup protocol BARRIER checks, not the guarded-fields discipline of a store
+				c.Note("type %s has a mutex but implements neither Persist nor NodeCache: not a shared store, LOCK does not apply", nm)
+				continue
+			}
 			if len(mf) > 1 {
 				c.Undecided(nil, P.Pos(tn.Pos()), "type "+nm+": several mutexes", "the rule cannot tell which mutex guards which field")
 				continue
@@ -986,4 +992,22 @@ func lockMethod(c *Ctx, lt lockedType, fn *ssa.Function, entry string, calls map
 			c.Violation(fn, m.pos, m.construct, m.msg, m.path)
 		}
 	}
+}
+
+// implementsStorageIface: T or *T implements mast.Persist or mast.NodeCache.
+func implementsStorageIface(P *ir.Program, named *types.Named) bool {
+	for _, in := range []string{"Persist", "NodeCache"} {
+		n := P.Named(ir.MastPath, in)
+		if n == nil {
+			continue
+		}
+		iface, ok := n.Underlying().(*types.Interface)
+		if !ok {
+			continue
+		}
+		if types.Implements(named, iface) || types.Implements(types.NewPointer(named), iface) {
+			return true
+		}
+	}
+	return false
 }
